@@ -137,7 +137,7 @@ impl OnnxOpRegistry {
         register_op!(Attention);
         register_op!(AveragePool);
         register_op!(BatchNormalization);
-        register_op!(Cast);
+        reg.register_op_with_factory(ops::Cast::id(), &read_cast);
         register_op!(CastLike);
         register_op!(Ceil);
         register_op!(Clip);
@@ -873,6 +873,29 @@ impl_read_op!(Cast, |attrs: &Attrs| {
     let to = attrs.require("to")?.as_dtype()?;
     Ok(ops::Cast { to })
 });
+
+impl_read_op!(CastToBool, |attrs: &Attrs| {
+    // See notes for `Cast` about these attributes.
+    attrs.check_eq("saturate", 1)?;
+    attrs.check_eq("round_mode", "up")?;
+    attrs.check_eq("to", i64::from(onnx::DataType::BOOL.0))?;
+    Ok(ops::CastToBool {})
+});
+
+/// Read an ONNX `Cast` operator.
+///
+/// RTen represents bools as i32 tensors, but a cast to bool converts elements
+/// differently than a cast to i32, so it has its own operator.
+fn read_cast(op: &onnx::NodeProto, ctx: &dyn OpLoadContext) -> ReadOpResult {
+    let to_bool = op.attribute.iter().any(|attr| {
+        attr.name.as_deref() == Some("to") && attr.i == Some(onnx::DataType::BOOL.0.into())
+    });
+    if to_bool {
+        ops::CastToBool::read_boxed(op, ctx)
+    } else {
+        ops::Cast::read_boxed(op, ctx)
+    }
+}
 
 impl_read_op!(CastLike, |attrs: &Attrs| {
     // The "saturate" attribute only applies to FP8, which is unsupported.
@@ -2230,6 +2253,38 @@ mod tests {
         let argmax_op = op.downcast_ref::<ArgMax>().unwrap();
         assert_eq!(argmax_op.axis, 1);
         assert_eq!(argmax_op.keep_dims, true);
+    }
+
+    #[test]
+    fn test_read_cast() {
+        use crate::ops::{Cast, CastToBool};
+        use crate::value::DataType;
+
+        let reg = OnnxOpRegistry::with_all_ops();
+        let read = |to: onnx::DataType| {
+            let node = create_node("Cast").with_attr("to", i64::from(to.0));
+            reg.read_op(&node, &FakeOpLoadContext::default()).unwrap()
+        };
+
+        let parsed = read(onnx::DataType::FLOAT);
+        let cast_op = parsed.op.downcast_ref::<Cast>().unwrap();
+        assert_eq!(cast_op.to, DataType::Float);
+        assert!(parsed.unused_attrs.is_empty());
+
+        let parsed = read(onnx::DataType::INT64);
+        let cast_op = parsed.op.downcast_ref::<Cast>().unwrap();
+        assert_eq!(cast_op.to, DataType::Int32);
+
+        // Bools are represented as i32 tensors, but casts to bool use a
+        // different operator than casts to int.
+        let parsed = read(onnx::DataType::BOOL);
+        assert!(parsed.op.downcast_ref::<CastToBool>().is_some());
+        assert!(parsed.unused_attrs.is_empty());
+
+        // `CastToBool` is internal and not registered under its own name.
+        let node = create_node("CastToBool").with_attr("to", i64::from(onnx::DataType::BOOL.0));
+        let result = reg.read_op(&node, &FakeOpLoadContext::default());
+        assert!(result.is_err());
     }
 
     #[test]
